@@ -1417,6 +1417,7 @@ RE_IMPORT_LCD     = re.compile(r"^\s*from\s+Reduino\.Displays\s+import\s+LCD\s*$
 RE_IMPORT_POTENTIOMETER = re.compile(
     r"^\s*from\s+Reduino\.Sensors\s+import\s+Potentiometer\s*$"
 )
+RE_IMPORT_ANY     = re.compile(r"^\s*(?:import|from\s+\S+\s+import)\s+[^\s;][^;]*$")
 
 # Led Primitives
 RE_ASSIGN     = re.compile(r"^\s*([A-Za-z_]\w*)\s*=\s*(.+)$")
@@ -1496,7 +1497,29 @@ RE_TRY            = re.compile(r"^\s*try\s*:\s*$")
 RE_EXCEPT         = re.compile(
     r"^\s*except(?:\s+([A-Za-z_][\w.]*))?(?:\s+as\s+([A-Za-z_]\w*))?\s*:\s*$"
 )
+RE_GLOBAL         = re.compile(r"^\s*global\s+[A-Za-z_][\w\s,]*$")
 RE_DEF            = re.compile(r"^\s*def\s+([A-Za-z_]\w*)\s*\((.*?)\)\s*:\s*$")
+
+def _import_end(lines: List[str], start: int) -> Optional[int]:
+    """Return the index after the import statement starting at ``lines[start]``.
+
+    ``None`` is returned when the line is not an import. A parenthesised list
+    of names may continue over the following lines.
+    """
+
+    text = _strip_inline_comment(lines[start]).strip()
+    if not RE_IMPORT_ANY.match(text):
+        return None
+    end = start + 1
+    depth = text.count("(") - text.count(")")
+    while depth > 0:
+        if end >= len(lines):
+            raise ValueError(f"unsupported statement: {text!r}")
+        part = _strip_inline_comment(lines[end])
+        depth += part.count("(") - part.count(")")
+        end += 1
+    return end
+
 
 def _indent_of(line: str) -> int:
     i = 0
@@ -1826,7 +1849,7 @@ def _handle_assignment_ast(
         node = ast.parse(line, mode="exec")
     except SyntaxError:
         return None
-    if not node.body:
+    if len(node.body) != 1:
         return None
 
     stmt = node.body[0]
@@ -2483,20 +2506,9 @@ def _parse_simple_lines(
             continue
 
         # ignore imports
-        if (
-            RE_IMPORT_LED.match(line)
-            or RE_IMPORT_RGB_LED.match(line)
-            or RE_IMPORT_SERVO.match(line)
-            or RE_IMPORT_DC_MOTOR.match(line)
-            or RE_IMPORT_BUZZER.match(line)
-            or RE_IMPORT_SLEEP.match(line)
-            or RE_IMPORT_SERIAL.match(line)
-            or RE_IMPORT_TARGET.match(line)
-            or RE_IMPORT_ULTRASONIC.match(line)
-            or RE_IMPORT_BUTTON.match(line)
-            or RE_IMPORT_LCD.match(line)
-        ):
-            i += 1
+        import_end = _import_end(snippet, i)
+        if import_end is not None:
+            i = import_end
             continue
 
         if line == "break":
@@ -4300,11 +4312,21 @@ def _parse_simple_lines(
                 _verif_note_ignored(scope, depth, line, "print")
                 i += 1
                 continue
+            if (
+                isinstance(expr_node, ast.Call)
+                and isinstance(expr_node.func, ast.Attribute)
+                and isinstance(expr_node.func.value, ast.Name)
+                and expr_node.func.value.id in ctx.get("serial_monitors", set())
+                and expr_node.func.attr in {"connect", "close"}
+            ):
+                # the host's end of the serial link: nothing to do on the device
+                _verif_note_ignored(scope, depth, line, "host-only")
+                i += 1
+                continue
             try:
                 expr_c = _to_c_expr(line, vars, ctx)
-            except Exception:
-                _verif_note_ignored(scope, depth, line, "expr-translation-failed")
-                expr_c = None
+            except Exception as exc:
+                raise ValueError(f"unsupported statement: {line!r}") from exc
             if expr_c is not None:
                 if (
                     isinstance(expr_node, ast.Call)
@@ -4352,9 +4374,13 @@ def _parse_simple_lines(
                 i += 1
                 continue
 
-        # unknown → ignore
-        _verif_note_ignored(scope, depth, line, "unknown")
-        i += 1
+        if line == "pass" or RE_GLOBAL.match(line):
+            # no meaning on the device
+            _verif_note_ignored(scope, depth, line, "no-device-meaning")
+            i += 1
+            continue
+
+        raise ValueError(f"unsupported statement: {line!r}")
 
     return body
 
@@ -4435,17 +4461,9 @@ def parse(src: str) -> Program:
             i += 1; continue
 
         # ignore imports
-        if (
-            RE_IMPORT_LED.match(text)
-            or RE_IMPORT_SLEEP.match(text)
-            or RE_IMPORT_SERIAL.match(text)
-            or RE_IMPORT_TARGET.match(text)
-            or RE_IMPORT_CORE.match(text)
-            or RE_IMPORT_ULTRASONIC.match(text)
-            or RE_IMPORT_BUTTON.match(text)
-            or RE_IMPORT_POTENTIOMETER.match(text)
-        ):
-            i += 1; continue
+        import_end = _import_end(lines, i)
+        if import_end is not None:
+            i = import_end; continue
 
         # controls
         if _indent_of(raw) == 0 and RE_WHILE_TRUE.match(text):
